@@ -234,7 +234,9 @@ static void services(const J &sc, Emitter &out)
             bool ok = an->assignAllIds();
             key += "|" + inBefore;
             res = std::string(ok ? "true" : "false") + "/" + modelDigest(s.m) + "/" + issuesDigest(an);
-            fail = !ok;
+            // assignAllIds() returns false both when it cannot work (no model: an issue is due) and when every item already
+            // has an id (documented: "true if any identifiers have been changed"); only the former is a failing result
+            fail = !ok && s.m == nullptr;
             lg = an;
             inBefore = modelDigest(s.m); // this call is documented to modify the model
         } else if (op == "lookup") {
